@@ -64,6 +64,9 @@ def check(P, rep):
         rep.check(not state_effects(g), 'C01.R6', 'validate_proof:effect-free', 'validate_proof changes nothing', entry_id(g))
     else:
         rep.floor('gateway entry validate_proof', 0, 1)
+    # 'registered and still-retained signer set' rests on the rotation bookkeeping and the epoch counter
+    include_rules(P, rep, 'C01.R8', 'c03', lambda o: o['rule'] in ('C03.R2',), 'signer sets are registered under exactly their installation epoch (C03.R2)', 8)
+    include_rules(P, rep, 'C01.R8', 'c08', lambda o: o['rule'] in ('C08.R4',), 'the epoch counter counts installed sets (C08.R4)', 4)
     # R5 who-may-write
     nw = 0
     for cn, en in P.all_entries():
